@@ -41,10 +41,14 @@ RULES=[ # (property, key regex, commit subject prefix, what)
  ('C20', r'(no-inplace-write|replace-protocol):', 'fix: Store overwrote entries in place', 'os.WriteFile on the final path: a crash between truncation and write left an empty or partial entry'),
  ('C15', r'absent-part-guard:sbom\.\(\*NodeList\)\.connectedIndexRecursion#siblings', 'fix: NodeSiblings returned nil', 'NodeGraph("") on a list holding a node with an empty id dereferenced the nil list NodeSiblings("") returned'),
  ('C03', r'placed-implies-attached:', 'fix: CycloneDX serializer dropped components', 'the dependsOn branch marked dependency targets as placed without attaching them: the component vanished while the dependency list still referred to it'),
+ ('C01', r'date-format-agreement:', 'fix: SPDX 2.3 serializer wrote package dates', 'package dates were written with Timestamp.String() (protobuf text format), which the reader cannot parse'),
+ ('C01', r'round-trip-path:spdx-package#Originators', 'fix: SPDX 2.3 serializer wrote the originator', 'the first originator was written into PackageSupplier (overwriting the supplier); PackageOriginator was never set'),
  ('C08', r'removal-updates-roots:', 'fix: RemoveNodes left', 'RemoveNodes left removed identifiers in RootElements'),
  ('C09', r'self-merge:', 'fix: NodeList.Add augmented', 'Add called Augment on a node with itself: in-place add never filled empty attributes'),
  ('C15', r'absent-part-guard:sbom\.\(\*NodeList\)\.connectedIndexRecursion#siblings', 'fix: NodeSiblings returned nil', 'NodeGraph("") on a list holding a node with an empty id dereferenced the nil list NodeSiblings("") returned'),
  ('C03', r'placed-implies-attached:', 'fix: CycloneDX serializer dropped components', 'the dependsOn branch marked dependency targets as placed without attaching them: the component vanished while the dependency list still referred to it'),
+ ('C01', r'date-format-agreement:', 'fix: SPDX 2.3 serializer wrote package dates', 'package dates were written with Timestamp.String() (protobuf text format), which the reader cannot parse'),
+ ('C01', r'round-trip-path:spdx-package#Originators', 'fix: SPDX 2.3 serializer wrote the originator', 'the first originator was written into PackageSupplier (overwriting the supplier); PackageOriginator was never set'),
  ('C08', r'removal-updates-roots:', 'fix: RemoveNodes left', 'RemoveNodes left removed identifiers in RootElements'),
 ]
 EXTRA=[]
